@@ -38,6 +38,18 @@ pub fn big_graph(family: &str, n: usize, pattern: &str, width: usize) -> Graph {
                 }
             }
         }
+        "erun" => {
+            // a long run of one kind (pattern[1], normally Ephemeral) between a first job of kind
+            // pattern[0] and a last job of kind pattern[2]: the recursive helpers of the engine
+            // walk such runs
+            for i in 0..n {
+                let k = if i == 0 { 0 } else if i == n - 1 { 2 } else { 1 };
+                kind.insert(jname(i), kind_at(pattern, k));
+                if i > 0 {
+                    edges.insert((jname(i - 1), jname(i)));
+                }
+            }
+        }
         "layers" => {
             // n layers of `width` jobs; job k of layer l depends on jobs k and k+1 (mod width) of layer l-1
             for l in 0..n {
